@@ -239,6 +239,20 @@ impl Parser {
                             }
                             _ => {}
                         },
+                        // `regexp` and `rx` are lexed as operator words; here they are root options
+                        Lexem::Operator(s)
+                            if matches!(mode, RootParsingMode::Root)
+                                && (s.eq_ignore_ascii_case("rx") || s.eq_ignore_ascii_case("regexp")) =>
+                        {
+                            self.drop_lexem();
+                            match self.parse_root_options() {
+                                Some(options) => root_options = options,
+                                None => {
+                                    roots.push(Root::new(path, RootOptions::new()));
+                                    break
+                                }
+                            }
+                        }
                         Lexem::Comma => {
                             if !path.is_empty() {
                                 roots.push(Root::new(path, root_options));
@@ -380,7 +394,7 @@ impl Parser {
                             }
                         }
                     },
-                    Lexem::Operator(s) if s.eq("rx") => {
+                    Lexem::Operator(s) if s.eq_ignore_ascii_case("rx") || s.eq_ignore_ascii_case("regexp") => {
                         regexp = true;
                         mode = RootParsingMode::Options;
                     }
